@@ -74,6 +74,7 @@ func runRedialOnce(c RCase) (fail *ev.Failure, timing bool) {
 			switch {
 			case h.Code == 257 && h.Flags&0x80 != 0:
 				p.mc.Feed(ceaFor(h))
+				p.mc.WaitParked(2 * time.Second) // dispatched before the Write returns
 			case h.Code == 280 && h.Flags&0x80 != 0:
 				p.mu.Lock()
 				if !p.have || p.last != h.HopByHop {
